@@ -4,6 +4,7 @@ import H2V.Lemmas.ConnCountsPSend
 -/
 namespace H2V.Lemmas.ConnCountsP
 open H2V H2V.Model H2V.Model.Conn
+variable {ρ : Bool}
 attribute [local irreducible] wrapSubU32 wrapSubUsize
 
 theorem mem_cons_pp {l : List SFrame} {g : SFrame} (hg : SFrame.isPP g = false) :
@@ -15,19 +16,19 @@ theorem mem_cons_pp {l : List SFrame} {g : SFrame} (hg : SFrame.isPP g = false) 
 
 macro_rules | `(tactic| ev_side) => `(tactic| (intro _ _; exact setPendingSend_same' _ _ (mem_cons_pp rfl)))
 
-theorem reclaimFrameInner_ev (s : Streams) (frame : DataFrame) : Ev s (s.reclaimFrameInner frame).1 := by
+theorem reclaimFrameInner_ev (s : Streams) (frame : DataFrame) : EvB ρ s (s.reclaimFrameInner frame).1 := by
   unfold Streams.reclaimFrameInner
   ev_auto
 
-theorem reclaimFrame_ev (s : Streams) (w : Writer) : Ev s (s.reclaimFrame w).1 := by
+theorem reclaimFrame_ev (s : Streams) (w : Writer) : EvB ρ s (s.reclaimFrame w).1 := by
   unfold Streams.reclaimFrame
   ev_auto
 
-theorem bufferOut_ev (s : Streams) (w : Writer) (f : Streams.OutFrame) : Ev s (s.bufferOut w f).1 := by
+theorem bufferOut_ev (s : Streams) (w : Writer) (f : Streams.OutFrame) : EvB ρ s (s.bufferOut w f).1 := by
   unfold Streams.bufferOut
   ev_auto
 
-theorem prioBufferPendingLoop_ev : ∀ (fuel : Nat) (s : Streams) (w : Writer), Ev s (Streams.prioBufferPendingLoop fuel s w).1 := by
+theorem prioBufferPendingLoop_ev : ∀ (fuel : Nat) (s : Streams) (w : Writer), EvB ρ s (Streams.prioBufferPendingLoop fuel s w).1 := by
   intro fuel
   induction fuel with
   | zero => intro s w; exact panic_ev _ _
@@ -36,7 +37,7 @@ theorem prioBufferPendingLoop_ev : ∀ (fuel : Nat) (s : Streams) (w : Writer), 
     unfold Streams.prioBufferPendingLoop
     ev_auto_ih ih
 
-theorem prioBufferPending_ev (fuel : Nat) (s : Streams) (w : Writer) : Ev s (Streams.prioBufferPending fuel s w).1 := by
+theorem prioBufferPending_ev (fuel : Nat) (s : Streams) (w : Writer) : EvB ρ s (Streams.prioBufferPending fuel s w).1 := by
   unfold Streams.prioBufferPending
   ev_auto
 
@@ -47,7 +48,7 @@ theorem isLocalInit_add_two (c : Counts) (id : Nat) : c.isLocalInit (id + 2) = c
   have : (id + 2) % 2 = id % 2 := by omega
   rw [this]
 
-theorem sendOpenId_ev (s : Streams) : Ev s s.sendOpenId.1 := by
+theorem sendOpenId_ev (s : Streams) : EvB ρ s s.sendOpenId.1 := by
   unfold Streams.sendOpenId
   split
   · exact .refl _
@@ -63,7 +64,7 @@ theorem sendOpenId_ev (s : Streams) : Ev s s.sendOpenId.1 := by
     · cases hy; exact ⟨by omega, .inl (by omega)⟩
 
 theorem sendMaybeResetNextStreamId_ev (s : Streams) (id : Nat) (h : s.counts.isLocalInit id = true) :
-    Ev s (s.sendMaybeResetNextStreamId id) := by
+    EvB ρ s (s.sendMaybeResetNextStreamId id) := by
   unfold Streams.sendMaybeResetNextStreamId
   split
   · next nxt hn =>
@@ -85,7 +86,7 @@ theorem sendMaybeResetNextStreamId_ev (s : Streams) (id : Nat) (h : s.counts.isL
   · exact .refl _
 
 theorem sendHeaders_ev (s : Streams) (id : Nat) (eos : Bool) (fields : List Hpack.Field) :
-    Ev s (s.sendHeaders id eos fields).1 := by
+    EvB ρ s (s.sendHeaders id eos fields).1 := by
   unfold Streams.sendHeaders
   split
   · exact .refl _
@@ -93,7 +94,7 @@ theorem sendHeaders_ev (s : Streams) (id : Nat) (eos : Bool) (fields : List Hpac
     · exact .refl _
     · next st' u heq =>
       dsimp only
-      have e1 : Ev s (s.modStream id fun st => { st with state := st' }) :=
+      have e1 : EvB ρ s (s.modStream id fun st => { st with state := st' }) :=
         modStream_ev' _ _ _ (setState_same _ _ (fun h => absurd h (sendOpen_not_early heq)))
       refine .trans e1 ?_
       generalize (s.modStream id fun st => { st with state := st' }) = s1
@@ -106,39 +107,39 @@ theorem sendHeaders_ev (s : Streams) (id : Nat) (eos : Bool) (fields : List Hpac
 
 /-- `Send::send_push_promise`: the PUSH_PROMISE frame is queued on the parent -/
 theorem sendInterimInformationalHeaders_ev (s : Streams) (id : Nat) (fields : List Hpack.Field) :
-    Ev s (s.sendInterimInformationalHeaders id fields).1 := by
+    EvB ρ s (s.sendInterimInformationalHeaders id fields).1 := by
   unfold Streams.sendInterimInformationalHeaders
   ev_auto
 
-theorem scheduleImplicitReset_ev (s : Streams) (id : Nat) (reason : Reason) : Ev s (s.scheduleImplicitReset id reason) := by
+theorem scheduleImplicitReset_ev (s : Streams) (id : Nat) (reason : Reason) : EvB ρ s (s.scheduleImplicitReset id reason) := by
   unfold Streams.scheduleImplicitReset
   ev_auto
 
-theorem sendTrailers_ev (s : Streams) (id : Nat) (fields : List Hpack.Field) : Ev s (s.sendTrailers id fields).1 := by
+theorem sendTrailers_ev (s : Streams) (id : Nat) (fields : List Hpack.Field) : EvB ρ s (s.sendTrailers id fields).1 := by
   unfold Streams.sendTrailers
   ev_auto
 
-theorem pollCapacity_ev (s : Streams) (id : Nat) (tag : String) : Ev s (s.pollCapacity id tag).1 := by
+theorem pollCapacity_ev (s : Streams) (id : Nat) (tag : String) : EvB ρ s (s.pollCapacity id tag).1 := by
   unfold Streams.pollCapacity
   ev_auto
 
-theorem pollReset_ev (s : Streams) (id : Nat) (mode : PollReset) (tag : String) : Ev s (s.pollReset id mode tag).1 := by
+theorem pollReset_ev (s : Streams) (id : Nat) (mode : PollReset) (tag : String) : EvB ρ s (s.pollReset id mode tag).1 := by
   unfold Streams.pollReset
   ev_auto
 
-theorem sendRecvGoAway_ev (s : Streams) (last : Nat) : Ev s (s.sendRecvGoAway last).1 := by
+theorem sendRecvGoAway_ev (s : Streams) (last : Nat) : EvB ρ s (s.sendRecvGoAway last).1 := by
   unfold Streams.sendRecvGoAway
   ev_auto
 
-theorem sendHandleError_ev (s : Streams) (id : Nat) : Ev s (s.sendHandleError id) := by
+theorem sendHandleError_ev (s : Streams) (id : Nat) : EvB ρ s (s.sendHandleError id) := by
   unfold Streams.sendHandleError
   ev_auto
 
-theorem decStreamWindow_ev (dec acc : Nat) (s : Streams) (id : Nat) : Ev s (Streams.decStreamWindow dec acc s id).1 := by
+theorem decStreamWindow_ev (dec acc : Nat) (s : Streams) (id : Nat) : EvB ρ s (Streams.decStreamWindow dec acc s id).1 := by
   unfold Streams.decStreamWindow
   ev_auto
 
-theorem sendClearQueues_ev (s : Streams) : Ev s s.sendClearQueues := by
+theorem sendClearQueues_ev (s : Streams) : EvB ρ s s.sendClearQueues := by
   unfold Streams.sendClearQueues
   exact .trans (.trans (clearPendingCapacity_ev _ _) (clearPendingSend_ev _ _)) (clearPendingOpen_ev _ _)
 
@@ -212,12 +213,12 @@ theorem clearQueue_eq (t : Streams) (id : Nat) :
 /-- the `pending_open` branch of `send_reset`: only the first queued frame (the HEADERS) survives.
     The three updates of the entry are one update whose PUSH_PROMISE frames were queued before. -/
 theorem keepHead_ev (s : Streams) (id : Nat) (f : SFrame) (hf : (s.stream id).pendingSend.head? = some f) :
-    Ev s (((s.modStream id fDrop).clearQueue id).modStream id (fApp f)) := by
+    EvB ρ s (((s.modStream id fDrop).clearQueue id).modStream id (fApp f)) := by
   have hcomp : ((s.modStream id fDrop).modStream id fClr).modStream id (fApp f) =
       s.modStream id (fun x => fApp f (fClr (fDrop x))) := by
     rw [modStream_modStream s id fDrop fClr (fun _ => rfl) (fun _ => rfl),
         modStream_modStream s id (fun x => fClr (fDrop x)) (fApp f) (fun _ => rfl) (fun _ => rfl)]
-  have hev : Ev s (s.modStream id (fun x => fApp f (fClr (fDrop x)))) := by
+  have hev : EvB ρ s (s.modStream id (fun x => fApp f (fClr (fDrop x)))) := by
     refine modStream_ev' _ _ _ ?_
     refine ⟨rfl, rfl, rfl, fun q => by cases q <;> rfl, fun h => h, ?_⟩
     intro g hg _
@@ -233,12 +234,12 @@ theorem keepHead_ev (s : Streams) (id : Nat) (f : SFrame) (hf : (s.stream id).pe
   · rw [hcomp]; exact hev
 
 theorem sendSendReset_ev (s : Streams) (id : Nat) (reason : Reason) (init : Initiator) :
-    Ev s (s.sendSendReset id reason init) := by
+    EvB ρ s (s.sendSendReset id reason init) := by
   unfold Streams.sendSendReset
   dsimp only
   split
   · exact .refl _
-  · have e1 : Ev s (s.modStreamW id fun st => st.setReset reason init) := modStreamW_ev' _ _ _ (setReset_same _ _ _)
+  · have e1 : EvB ρ s (s.modStreamW id fun st => st.setReset reason init) := modStreamW_ev' _ _ _ (setReset_same _ _ _)
     refine .trans e1 ?_
     generalize (s.modStreamW id fun st => st.setReset reason init) = s1
     split
@@ -252,7 +253,7 @@ theorem sendSendReset_ev (s : Streams) (id : Nat) (reason : Reason) (init : Init
       · exact clearQueue_ev _ _
 
 theorem sendPushPromise_ev (s : Streams) (parent pk pid : Nat) (fields : List Hpack.Field)
-    (hl : s.counts.isLocalInit pid = true) : Ev s (s.sendPushPromise parent pk pid fields).1 := by
+    (hl : s.counts.isLocalInit pid = true) : EvB ρ s (s.sendPushPromise parent pk pid fields).1 := by
   unfold Streams.sendPushPromise
   split
   · exact .refl _
@@ -263,11 +264,11 @@ theorem sendPushPromise_ev (s : Streams) (parent pk pid : Nat) (fields : List Hp
       · unfold Streams.queueFrame
         exact .trans (.queuePP parent pk pid fields hl) (scheduleSend_ev _ _)
 
-theorem sendRecvStreamWindowUpdate_ev (s : Streams) (id sz : Nat) : Ev s (s.sendRecvStreamWindowUpdate id sz).1 := by
+theorem sendRecvStreamWindowUpdate_ev (s : Streams) (id sz : Nat) : EvB ρ s (s.sendRecvStreamWindowUpdate id sz).1 := by
   unfold Streams.sendRecvStreamWindowUpdate
   ev_auto
 
-theorem sendApplyRemoteSettings_ev (s : Streams) (a b c : Option Nat) : Ev s (s.sendApplyRemoteSettings a b c).1 := by
+theorem sendApplyRemoteSettings_ev (s : Streams) (a b c : Option Nat) : EvB ρ s (s.sendApplyRemoteSettings a b c).1 := by
   unfold Streams.sendApplyRemoteSettings
   ev_auto
 
